@@ -38,18 +38,46 @@ concrete floats (360.0 * 0.2) in machine arithmetic, so for circles flown with t
 Known finding kept visible: `phlc.land`/`no-exception` - PositionHlCommander.land() with the current z below the landing
 height computes a negative duration; time.sleep raises ValueError after hl.land was sent and before hl.stop.
 
+Extension round (second half of this file)
+------------------------------------------
+* Wire level: `phlc.on-the-wire` (PositionHlCommander through the REAL HighLevelCommander: absolute go-to packets to the
+  tracked position, land packet then stop packet), `mc.on-the-wire` (MotionCommander + real set-point thread body + REAL
+  Commander, mode R, symbolic arguments, client X-mode and protocol version symbolic), `mc.on-the-wire.grid` (the same in
+  machine arithmetic with exact struct.pack on a concrete grid; no solver involved, so it is a deterministic witness for
+  changes of the packet contents).  Only the fields C17 speaks about are compared (command, group mask, absolute flag,
+  target, duration / velocities, yaw rate, height); yaw of take-off/land, the `linear` flag and the validity time of the
+  priority release are left free.
+* Virtual time (`class CoSim`, `mc.flight.timed*`): "hover set-points at least every update period" and "height integrates
+  the commanded vertical velocity" are now end-to-end statements about the real MotionCommander and the real run() loop in
+  the punctual schedule: Queue.get(timeout) and time.sleep are given virtual-time semantics by stubs, the number of periodic
+  wake-ups inside each sleep of the commanding thread is explored (bound K per sleep), gaps between consecutive hover
+  set-points are measured on the virtual clock against the DOCUMENTED period 0.2 s (tolerance 1 ns for the rounding of clock
+  sums in native runs), heights against the integral of the commanded vertical velocity kept as ghost state.
+* Induction over the run() loop: `thread.run.step` (one iteration from any reachable thread state).
+* Histories: `mc.second-flight`, `phlc.second-flight` (land, take off again on the same object), `construct.from-sync`,
+  `phlc.defaults.take_off`; `still-flying` in every phlc.* move contract (induction step for "whatever primitives came before",
+  including the error exits); `get_position` is called as a function under contract (`reported_position`).
+* Thorough tier: programs of 3 primitives (`*.session.thorough.*`), two-primitive timed flights with up to 2 and one-primitive
+  flights with up to 3 periodic wake-ups per sleep, every blocking primitive through the wire, 3/4 queued events, 6 idle periods.
+
 Not covered (outside the technique)
 -----------------------------------
-* real thread interleavings / wall-clock timing (only the sequential runs and the one interleaving of mc.flight): "hover set-points at least every update period" is proved only as
-  "each iteration of run() blocks at most update_period in Queue.get(timeout=update_period) and then sends exactly one
-  hover set-point"; scheduling delays, the duration of send_packet and the race of the commanding thread with the
-  set-point thread (e.g. _hover_setpoint read by get_height while run() replaces it) are not modelled.
+* pre-emption of one thread between two statements of the other and scheduling delays: the virtual-time contracts explore the
+  punctual schedules (each thread runs as soon as it is runnable; the set-point thread handles a queued set-point at the
+  virtual instant it is posted) plus the two extremes of mc.flight (thread runs only after take-off and inside join).  Under
+  a late schedule the streamed height lags by (delay * vertical velocity); the race on `_hover_setpoint` between
+  get_height() (commanding thread) and run() is not modelled.  Observation (not a clause of C17): land() descends by
+  get_height() = the height of the last STREAMED set-point; directly after a vertical motion that value is up to one update
+  period of vertical travel old (the pending stop set-point has not been handled yet when land() reads it).
 * "no set-points streamed afterwards" under the real thread: relies on the assumed contract of Thread.join (above).
 * time.time() is read twice inside _new_setpoint; the height formula is stated exactly in terms of both readings (the
-  height integrates the velocity exactly when the two readings coincide, see thread.run.events/height-continuity).
-* floating-point rounding (mode R), NaN/inf arguments.
-* programs longer than the stated bound in the session contracts (the inductive per-primitive contracts are unbounded).
-* construction from a SyncCrazyflie, the optional controller parameter of PositionHlCommander (not part of C17).
+  height integrates the velocity exactly when the two readings coincide, see thread.run.events/height-continuity and
+  thread.run.step); in the virtual-time contracts both readings are the same virtual instant.
+* floating-point rounding (mode R; machine arithmetic only on the concrete grid of mc.on-the-wire.grid and in
+  thread.run.on-the-wire), NaN/inf arguments.  In mode R struct.pack of a real is an uninterpreted function: a counterexample of
+  a wire obligation whose difference vanishes in float32 rounding does not replay (reported as ENGINE-MISMATCH, never green).
+* programs longer than the stated bound in the session / timed contracts (the inductive per-primitive contracts are unbounded).
+* the optional controller parameter of PositionHlCommander, Commander.send_full_state_setpoint (not used by the flight helpers).
 """
 from pyvc.api import contract
 
@@ -407,11 +435,12 @@ def thread_api(c):
     c.ensure('joined-after-terminate', "calls('thread:') == ('thread:_SetPointThread.join',) and all(is_same(e[1][0], t) for e in sent('thread:_SetPointThread.join')) and len(calls('cf.')) == 0")
 
 
-def _thread_run_events(n):
+def _thread_run_events(n, thorough=False):
     @contract('C17', 'thread.run.events%d' % n, [SPT + '.run', SPT + '._new_setpoint', SPT + '._update_z_in_setpoint', SPT + '._current_z', SPT + '.get_height'],
               clause=CL_HOVER + ' - one hover set-point per queued velocity set-point carrying its vx, vy, yaw rate and the height '
               'base + vertical velocity * elapsed time; run() returns at the terminate event and sends nothing after it',
-              float_mode='R', bounded='%d queued set-points before the terminate event (1 and 2 enumerated); further events after terminate' % n)
+              float_mode='R', bounded='%d queued set-points before the terminate event (1 and 2 enumerated, 3 and 4 in the thorough tier; every '
+              'length by induction: thread.run.step); further events after terminate' % n, thorough_only=thorough)
     def k(c):
         clk = c.floats('clk', 3 * n)
         t = spt(c, clk)
@@ -607,6 +636,9 @@ def check_go_to(c, target):
     c.snapshot('tgt', target)
     c.snapshot('dist2', '(tgt[0] - x0) * (tgt[0] - x0) + (tgt[1] - y0) * (tgt[1] - y0) + (tgt[2] - z0) * (tgt[2] - z0)')
     c.ensure('no-exception-when-valid', 'implies(v > 0, raised is None)')
+    # induction step of "whatever sequence of primitives came before": moving (or failing to) never ends the flight, so that land() /
+    # __exit__ (phlc.land: from ANY flying state) still send land + stop
+    c.ensure('still-flying', 'self._is_flying is True')
     if c.get('raised') is None:
         c.ensure('position-is-start-plus-displacement', 'self.get_position() == tgt')
         c.ensure('go-to-then-sleep-or-nothing', "calls() in ((), ('%s', 'time.sleep'))" % GOTO)
@@ -633,6 +665,15 @@ def phlc_go_to(c):
         c.snapshot('z', 'dh'), c.snapshot('v', 'dv')
         c.call((self, 'go_to'), c.get('x'), c.get('y'))
     check_go_to(c, '(x, y, z)')
+    reported_position(c)
+
+
+def reported_position(c):
+    """get_position() itself (the specifications above use it as an observer): the tracked position, nothing sent"""
+    moved = c.get('raised') is None
+    c.reset_trace()
+    c.call((c.get('self'), 'get_position'))
+    c.ensure('get-position-reports-the-tracked-position', 'raised is None and calls() == () and result == (%s)' % ('tgt' if moved else '(x0, y0, z0)'))
 
 
 def _phlc_move(prim):
@@ -653,6 +694,7 @@ def _phlc_move(prim):
             c.snapshot('v', 'dv')
         c.call((self, prim), *args)
         check_go_to(c, '(x0 + dx, y0 + dy, z0 + dz)')
+        reported_position(c)
     return k
 
 
@@ -681,6 +723,7 @@ def phlc_defaults(c):
         c.call((self, 'land'))
         c.ensure('lands-on-new-landing-height', "raised is None and calls('cf.') == ('cf.high_level_commander.land', 'cf.high_level_commander.stop') "
                  "and all(e[1][:1] == (l,) for e in sent('cf.high_level_commander.land')) and self.get_position() == (x, y, l)")
+        c.ensure('landing-duration-uses-the-current-default-velocity', "all(len(e[1]) == 2 and e[1][1] * v == z - l for e in sent('cf.high_level_commander.land'))")
 
 
 @contract('C17', 'phlc.take_off', [PHC + '.take_off', PHC + '.__enter__', PHC + '.__init__', PHC + '._height', PHC + '._velocity'],
@@ -778,7 +821,7 @@ def phlc_session(c):
             c.snapshot('px', 'px + s[0] * a%d' % i), c.snapshot('py', 'py + s[1] * a%d' % i), c.snapshot('pz', 'pz + s[2] * a%d' % i)
         c.call((self, p), *a)
         c.ensure('step%d-no-exception' % i, 'raised is None')
-        c.ensure('step%d-position-is-start-plus-sum-of-displacements' % i, 'self.get_position() == (px, py, pz)')
+        c.ensure('step%d-position-is-start-plus-sum-of-displacements' % i, 'self.get_position() == (px, py, pz) and self._is_flying is True')
         c.ensure('step%d-last-go-to-targets-reported-position' % i, "implies(len(sent('%s')) > 0, sent('%s')[-1][1][:3] == (px, py, pz))" % (GOTO, GOTO))
     c.require('pz >= lh')
     c.reset_trace()
@@ -850,3 +893,860 @@ def thread_on_the_wire(c):
     c.ensure('generic-setpoint-port', 'pk.port == 7 and pk.channel == 0')
     c.ensure('velocities-in-the-requested-direction',
              "bytes(pk.data) == (pack('<Bffff', 5, vx, vy, -yaw, 0.0) if ver <= 8 else pack('<Bffff', 10, vx, vy, yaw, 0.0))")
+
+
+# =========================================================================== extension round: wire level, histories, schedules
+#
+# What the contracts below add (see also the end of the module docstring):
+#  * phlc.on-the-wire / mc.on-the-wire: the commanders run against the REAL HighLevelCommander / Commander objects, so that
+#    "targets that position", "the stop command" and "the requested direction" are statements about the packets that leave.
+#  * *.second-flight, construct.from-sync: histories on one object (land, take off again) and the SyncCrazyflie constructor path.
+#  * thread.run.step: one iteration of the set-point loop from ANY reachable thread state (induction step, unbounded).
+#  * mc.flight.timed*: virtual-time co-simulation of the commanding thread with the real set-point thread body (class CoSim).
+
+HLCM = 'cflib.crazyflie.high_level_commander:HighLevelCommander'
+SCF = 'cflib.crazyflie.syncCrazyflie:SyncCrazyflie'
+UPDATE_PERIOD = 0.2     # documented update period of the hover set-points (s)
+
+
+@contract('C17', 'phlc.on-the-wire', [PHC + '.take_off', PHC + '.__enter__', PHC + '.go_to', PHC + '.move_distance', PHC + '.land', PHC + '.__exit__',
+                                      HLCM + '.takeoff', HLCM + '.go_to', HLCM + '.land', HLCM + '.stop', HLCM + '._send_packet'],
+          clause=CL_POS + '; ' + CL_END + ' [PositionHlCommander through the REAL HighLevelCommander: the take-off, go-to, land and stop packets that '
+          'reach the link - every go-to is an ABSOLUTE go-to (not relative, polynomial) to the tracked position for all groups with yaw 0 and the '
+          'slept duration; the context ends with the land packet followed by the stop packet]', float_mode='R')
+def phlc_on_the_wire(c):
+    c.virtual_time([0.0, 5.0])          # constructed at 0.0, take-off at 5.0: no hold-back wait
+    legacy = c.choice('legacy_go_to', [False, True])
+    ver = c.int('ver', 0, 255)
+    c.require('ver < 8' if legacy else 'ver >= 8')
+    cf = c.ext('cf', returns={'is_connected': True, 'platform.get_protocol_version': ver})
+    c.set(cf, 'high_level_commander', c.new(HLCM, cf))
+    for n in ('x0', 'y0', 'dv', 'dh', 'lh'):
+        c.float(n)
+    c.require('dv > 0 and dh > 0 and dh >= lh')
+    self = c.new(PHC, cf, c.get('x0'), c.get('y0'), 0.0, c.get('dv'), c.get('dh'), None, c.get('lh'))
+    c.let('self', self)
+    c.reset_trace()
+    PK = "tuple(e[1][0] for e in sent('cf.send_packet'))"
+    c.call((self, '__enter__'))
+    c.ensure('take-off-no-exception', 'raised is None')
+    c.snapshot('pk', PK)
+    c.snapshot('sl', "sent('time.sleep')")
+    c.ensure('one-take-off-packet-then-wait', "len(pk) == 1 and len(sl) == 1 and calls()[-2:] == ('cf.send_packet', 'time.sleep')")
+    if len(c.get('pk')) == 1 and len(c.get('sl')) == 1:
+        c.snapshot('T', 'sl[0][1][0]')
+        c.snapshot('d', 'bytes(pk[0].data)')       # '<BBff?f': command, group mask, height, yaw, use-current-yaw, duration (yaw is not C17's)
+        c.ensure('take-off-packet', "pk[0].port == 8 and pk[0].channel == 0 and len(d) == 15 and d[:6] == pack('<BBf', 7, 0, dh) and d[11:] == pack('<f', T) and T * dv == dh")
+    # one move: absolute target or displacement, explicit or default velocity
+    prim = c.choice('prim', ['go_to', 'move_distance'])
+    a = [c.float('a0'), c.float('a1'), c.float('a2')]
+    if c.choice('v_given', [True, False]):
+        a.append(c.float('v'))
+        c.require('v > 0')
+    else:
+        c.snapshot('v', 'dv')
+    c.snapshot('tgt', '(a0, a1, a2)' if prim == 'go_to' else '(x0 + a0, y0 + a1, dh + a2)')
+    c.snapshot('dist2', '(tgt[0] - x0) * (tgt[0] - x0) + (tgt[1] - y0) * (tgt[1] - y0) + (tgt[2] - dh) * (tgt[2] - dh)')
+    c.reset_trace()
+    c.call((self, prim), *a)
+    c.ensure('move-no-exception', 'raised is None')
+    c.snapshot('pk', PK)
+    c.snapshot('sl', "sent('time.sleep')")
+    c.ensure('one-go-to-packet-iff-displacement-nonzero', 'len(pk) == (1 if dist2 > 0 else 0) and len(sl) == len(pk)')
+    if len(c.get('pk')) == 1 and len(c.get('sl')) == 1:
+        c.snapshot('T', 'sl[0][1][0]')
+        c.snapshot('d', 'bytes(pk[0].data)')
+        # '<BBBfffff' (protocol < 8) / '<BBBBfffff': command, group mask, relative, [linear,] x, y, z, yaw, duration
+        c.let('o', 3 if legacy else 4)
+        c.ensure('go-to-packet-is-absolute-to-the-tracked-position',
+                 "pk[0].port == 8 and pk[0].channel == 0 and len(d) == o + 20 and d[:3] == pack('<BB?', %d, 0, False) and "
+                 "d[o:o + 12] == pack('<fff', tgt[0], tgt[1], tgt[2]) and d[o + 12:] == pack('<ff', 0.0, T)" % (4 if legacy else 12))
+        c.ensure('go-to-duration-is-distance-over-velocity', 'T >= 0 and (T * v) * (T * v) == dist2')
+    c.call((self, 'get_position'))
+    c.ensure('reported-position-is-the-go-to-target', 'raised is None and result == tgt')
+    c.require('tgt[2] >= lh')
+    failed = c.choice('exception_in_body', [False, True])
+    c.reset_trace()
+    c.call((self, '__exit__'), *([c.ext('exc_type'), c.ext('exc_value'), c.ext('exc_tb')] if failed else [None, None, None]))
+    c.ensure('exit-no-exception', 'raised is None and not result')
+    c.snapshot('pk', PK)
+    c.snapshot('sl', "sent('time.sleep')")
+    c.ensure('land-packet-wait-stop-packet', "len(pk) == 2 and len(sl) == 1 and calls() == ('cf.send_packet', 'time.sleep', 'cf.send_packet')")
+    if len(c.get('pk')) == 2 and len(c.get('sl')) == 1:
+        c.snapshot('T', 'sl[0][1][0]')
+        c.snapshot('d', 'bytes(pk[0].data)')
+        c.ensure('land-packet', "pk[0].port == 8 and pk[0].channel == 0 and len(d) == 15 and d[:6] == pack('<BBf', 8, 0, lh) and d[11:] == pack('<f', T) and T * dv == tgt[2] - lh")
+        c.ensure('ends-with-the-stop-packet', "pk[1].port == 8 and pk[1].channel == 0 and bytes(pk[1].data) == pack('<BB', 3, 0)")
+
+
+class CoSim:
+    """Virtual-time co-simulation of the commanding thread with the REAL body of the set-point thread (explicit schedules
+    through effectful stubs; nothing of the MotionCommander or of _SetPointThread.run is replaced).
+
+    * the module `time` of motion_commander and the `Queue` of the set-point thread are stubs that implement virtual time:
+      `time.time()` is the virtual clock `now`; `time.sleep(d)` (the commanding thread blocks) runs the real `run()` of the
+      set-point thread until that thread blocks beyond the end of the sleep, then sets now += d; `Queue.get(timeout=p)` returns a
+      queued item at once, otherwise the caller wakes up with queue.Empty at (time of the call) + p - or, if the commanding
+      thread wakes up first, the set-point thread is descheduled inside get() (pseudo exception StopLoop leaves run(); all state
+      of the loop is in the thread object, so calling run() again continues it; the deadline of the interrupted get() is kept);
+      `Queue.put` appends (and a blocked get() then returns the item at the same virtual instant: the "punctual" schedule,
+      in which neither thread is ever delayed by the scheduler);
+    * `Thread.join` of the set-point thread runs run() until it returns (contract of join); a get() on an empty queue then is
+      the pseudo exception Deadlock;
+    * a hover set-point streamed by the thread (stub `cf.commander.send_hover_setpoint`, or - wire mode - the hover packet the
+      REAL Commander hands to `cf.send_packet`) is checked when it is sent, against ghost state kept by the stubs:
+      gH, gT, gv = the integral of the commanded vertical velocity up to gT, and the vertical velocity commanded since then.
+
+    The number of periodic wake-ups per sleep is not chosen by the contract: the exploration forks on `deadline <= end of sleep`;
+    symbolic paths with more than `max_ticks` wake-ups in one sleep are cut (stated as bound); native runs are not cut."""
+
+    def __init__(self, c, max_ticks, wire=False, concrete=False):
+        self.c, self.K, self.wire, self.concrete = c, max_ticks, wire, concrete
+        self.items, self.popped, self.cmd_packets = [], [], []
+        self.cur = (0.0, 0.0, 0.0, 0.0)
+        self.waiting = self.draining = self.in_thread = self.finished = False
+        self.ticks = self.n_hover = self.n_threads = 0
+        self.t = self.mc = self.crashed = None
+        self.stop_loop, self.empty = c.raiser('StopLoop'), c.raiser('queue.Empty')
+        self.deadlock, self.negative = c.raiser('Deadlock'), c.raiser('ValueError', 'sleep length must be non-negative')
+        if concrete:
+            c.let('t_start', 0.0)
+        else:
+            c.float('t_start')              # the virtual clock starts at an arbitrary time (and all clock arithmetic is symbolic, exact)
+        c.snapshot('now', 't_start')
+        for n in ('gH', 'gT', 'gv', 'last'):
+            c.let(n, 0.0)
+        for n in ('heights_ok', 'velocities_ok', 'gaps_ok', 'timeouts_ok', 'wire_ok'):
+            c.let(n, True)
+        c.let('PERIOD', UPDATE_PERIOD)
+        c.virtual_time()
+        self.q = c.ext('q', returns={'get': self.q_get, 'put': self.q_put})
+        c.patch(MC + ':Queue', c.ext('Queue', returns={'()': self.new_queue}))
+        c.patch(MC + ':time', c.ext('time', returns={'sleep': self.sleep, 'time': lambda *_a: c.get('now')}))
+
+    # ---- the Crazyflie
+    def crazyflie(self):
+        c = self.c
+        if not self.wire:
+            return c.ext('cf', returns={'is_connected': True, 'commander.send_hover_setpoint': self.hover})
+        self.legacy = c.choice('legacy_hover', [False, True])
+        if self.concrete:
+            ver = c.let('ver', 8 if self.legacy else 9)
+        else:
+            ver = c.int('ver', -1, 255)
+            c.require('ver <= 8' if self.legacy else 'ver > 8')
+        cf = c.ext('cf', returns={'is_connected': True, 'platform.get_protocol_version': ver, 'send_packet': self.packet})
+        cmd = c.new(CMDR, cf)
+        # whatever the application selected for manual attitude set-points
+        c.call((cmd, 'set_client_xmode'), c.choice('x_mode', [False, True]) if self.concrete else c.bool('x_mode'))
+        c.set(cf, 'commander', cmd)
+        return cf
+
+    # ---- Queue
+    def new_queue(self, *_a):
+        self.items, self.waiting = [], False
+        return self.q
+
+    def q_put(self, _i, args, _k):
+        c = self.c
+        item = args[0]
+        self.items.append(item)
+        if not isinstance(item, str):       # a velocity set-point is commanded now: the integral continues with its vertical velocity
+            c.let('it', item)
+            c.snapshot('gH', 'gH + gv * (now - gT)'), c.snapshot('gT', 'now'), c.snapshot('gv', 'it[2]')
+        return None
+
+    def q_get(self, _i, args, kw):
+        c = self.c
+        if self.items:
+            self.waiting = False
+            item = self.items.pop(0)
+            if not isinstance(item, str):
+                self.cur = item
+                self.popped.append(item)
+            return item
+        if self.draining:
+            return self.deadlock()          # join() waits for a thread that waits for an event nobody will post
+        tmo = kw.get('timeout', args[1] if len(args) > 1 else None)
+        if tmo is None:
+            return self.stop_loop()         # blocks until the next put
+        if not self.waiting:
+            self.waiting = True
+            c.let('tmo', tmo)
+            c.snapshot('wake', 'now + tmo')
+            c.snapshot('timeouts_ok', 'timeouts_ok and 0 < tmo <= PERIOD')
+        if c.backend == 'sym' and self.ticks >= self.K:
+            c.require('wake > slice_end')   # bound of the exploration: at most K periodic wake-ups in one sleep
+            return self.stop_loop()
+        if c.concretize('wake <= slice_end'):
+            self.ticks += 1
+            self.waiting = False
+            c.snapshot('now', 'wake')
+            return self.empty()
+        return self.stop_loop()             # the commanding thread wakes up first
+
+    # ---- time
+    def sleep(self, _i, args, _k):
+        c = self.c
+        c.let('slp', args[0])
+        if c.concretize('slp < 0'):
+            return self.negative()
+        c.snapshot('slice_end', 'now + slp')
+        self.run_thread()
+        c.snapshot('now', 'slice_end')
+        return None
+
+    def pump(self):
+        """the commanding thread yields without letting time pass: the set-point thread handles what is queued"""
+        self.c.snapshot('slice_end', 'now')
+        self.run_thread()
+
+    def run_thread(self):
+        c = self.c
+        t = c.getfield(self.mc, '_thread') if self.mc is not None else None
+        if t is None:
+            return
+        if t is not self.t:                 # a new set-point thread (started in the same virtual instant)
+            self.t, self.finished = t, False
+            self.n_threads += 1
+            self.cur = (0.0, 0.0, 0.0, 0.0)
+            c.set(t, 'join', c.ext('join', returns={'()': self.join}))
+            c.let('gH', 0.0), c.let('gv', 0.0), c.snapshot('gT', 'now'), c.snapshot('last', 'now')
+            for it in self.items:           # posted between the creation of the thread and this first yield
+                if not isinstance(it, str):
+                    c.let('it', it)
+                    c.snapshot('gv', 'it[2]')
+        if self.finished or self.crashed:
+            return
+        self.ticks = 0
+        self.in_thread = True
+        r = c.invoke_catch((t, 'run'))
+        self.in_thread = False
+        if r is None:
+            self.finished = True            # run() returned outside join(): only after a terminate event
+        elif r != 'StopLoop':
+            self.crashed = r                # an exception ends the thread: nothing is streamed any more
+
+    def join(self, *_a):
+        c = self.c
+        if self.finished or self.crashed:
+            return None
+        c.snapshot('slice_end', 'now')
+        self.draining = self.in_thread = True
+        r = c.invoke_catch((self.t, 'run'))
+        self.draining = self.in_thread = False
+        if r is None:
+            self.finished = True
+            return None
+        self.crashed = r
+        return self.deadlock()
+
+    # ---- what the set-point thread streams
+    def expect(self):
+        c = self.c
+        c.let('ev', self.cur)
+        c.snapshot('zexp', 'gH + gv * (now - gT)')
+        c.snapshot('gaps_ok', 'gaps_ok and now - last <= PERIOD + 1e-9')     # 1 ns: rounding of the clock arithmetic in native runs
+        c.snapshot('last', 'now')
+        self.n_hover += 1
+
+    def hover(self, _i, args, kw):
+        c = self.c
+        self.expect()
+        c.let('hv', tuple(args))
+        c.let('plain', len(args) == 4 and not kw)
+        c.snapshot('velocities_ok', 'velocities_ok and plain and hv[:3] == (ev[0], ev[1], ev[3])')
+        c.snapshot('heights_ok', 'heights_ok and plain and hv[3] == zexp')
+        return None
+
+    def packet(self, _i, args, _k):
+        c = self.c
+        if not self.in_thread:
+            self.cmd_packets.append((args[0], self.n_hover))
+            return None
+        self.expect()
+        c.let('pkt', args[0])
+        c.let('kind', 5 if self.legacy else 10), c.let('ysign', -1.0 if self.legacy else 1.0)
+        if self.concrete:       # machine arithmetic: the float32 values in the packet (the sign of a zero does not matter)
+            c.snapshot('u', "unpack('<Bffff', bytes(pkt.data))")
+            c.snapshot('wire_ok', "wire_ok and pkt.port == 7 and pkt.channel == 0 and u == (kind, f32(ev[0]), f32(ev[1]), ysign * f32(ev[3]), f32(zexp))")
+            return None
+        # mode R: struct.pack of a real is an uninterpreted function, so the bytes are compared; a concrete zero yaw rate may be packed with either sign
+        yaws = ['ysign * ev[3]'] + (['0.0', '-0.0'] if isinstance(self.cur[3], float) and self.cur[3] == 0 else [])
+        c.snapshot('wire_ok', "wire_ok and pkt.port == 7 and pkt.channel == 0 and (" +
+                   ' or '.join("bytes(pkt.data) == pack('<Bffff', kind, ev[0], ev[1], %s, zexp)" % y for y in yaws) + ')')
+        return None
+
+    def verdicts(self):
+        c = self.c
+        c.let('crashed', self.crashed), c.let('n_hover', self.n_hover), c.let('n_threads', self.n_threads)
+        c.let('events', tuple(self.popped)), c.let('unread', tuple(self.items))
+        c.ensure('set-point-thread-never-ends-with-an-exception', 'crashed is None')
+        c.ensure('hover-setpoints-at-least-every-update-period', 'gaps_ok and timeouts_ok')
+        if self.wire:
+            c.ensure('every-hover-packet-carries-the-commanded-velocities-and-the-integrated-height', 'wire_ok')
+        else:
+            c.ensure('every-hover-setpoint-carries-the-commanded-velocities-and-yaw-rate', 'velocities_ok')
+            c.ensure('every-hover-height-is-the-integral-of-the-commanded-vertical-velocity', 'heights_ok')
+
+
+def _mc_wire(PRIMS, K, thorough):
+    @contract('C17', 'mc.on-the-wire' + ('.thorough.' + PRIMS[0] if thorough else ''),
+              [MCC + '.__enter__', MCC + '.take_off', MCC + '.__exit__', MCC + '.land', MCC + '.move_distance', MCC + '._set_vel_setpoint']
+              + [MCC + '.' + p for p in PRIMS] + [SPT + '.run', SPT + '._new_setpoint', SPT + '._update_z_in_setpoint', SPT + '.stop',
+                                                  CMDR + '.send_hover_setpoint', CMDR + '.send_stop_setpoint', CMDR + '.send_notify_setpoint_stop', CMDR + '.set_client_xmode'],
+              clause=CL_MOVE + '; ' + CL_END + ' [MotionCommander with its real set-point thread through the REAL Commander, punctual virtual-time '
+              'schedule: every hover packet on the link carries the velocities and yaw rate the primitive commanded (unchanged by the client X-mode '
+              'selected for manual attitude set-points; yaw rate negated for the legacy set-point type) and the integrated height; the last two '
+              'packets are the stop set-point and the set-point priority release, after every hover packet]', float_mode='R',
+              bounded='__enter__, one blocking primitive of %s, __exit__%s; at most %d periodic wake-ups of the set-point thread within one sleep of '
+              'the commanding thread (0: every motion, the climb and the descent are shorter than one update period)'
+              % ('/'.join(PRIMS), ' with or without an exception pending' if thorough else '', K), thorough_only=thorough)
+    def k(c):
+        sim = CoSim(c, K, wire=True)
+        cf = sim.crazyflie()
+        c.float('dh')
+        c.require('dh > 0')
+        self = c.new(MCC, cf, c.get('dh'))
+        sim.mc = self
+        c.let('self', self)
+        c.call((self, '__enter__'))
+        c.ensure('take-off-no-exception', 'raised is None')
+        sim.pump()
+        prim = c.choice('prim', PRIMS)
+        c.float('a'), c.float('v')
+        c.require('a > 0 and v > 0')
+        c.let('PI', PI)
+        if prim == 'move_distance':
+            c.float('b')
+            args = [c.get('a'), c.get('b'), 0.0, c.get('v')]
+            c.snapshot('n2', 'a * a + b * b')
+            # commanded: velocity v along (a, b, 0)
+            moving = 'mv[2] == 0 and mv[3] == 0 and mv[0] * b == mv[1] * a and mv[0] > 0 and mv[0] * mv[0] + mv[1] * mv[1] == v * v'
+        elif prim in DIRS:
+            sx, sy, sz = DIRS[prim]
+            args = [c.get('a'), c.get('v')]
+            moving = 'mv == (%d * v, %d * v, %d * v, 0.0)' % (sx, sy, sz)
+        elif prim.startswith('turn'):
+            args = [c.get('a'), c.get('v')]
+            moving = 'mv == (0.0, 0.0, 0.0, %d * v)' % (1 if prim == 'turn_left' else -1)
+        else:
+            args = [c.get('a'), c.get('v')]
+            moving = 'mv[:3] == (v, 0.0, 0.0) and %d * mv[3] * (2 * a * PI) == 360.0 * v' % (1 if prim == 'circle_left' else -1)
+        n0 = len(sim.popped)
+        c.call((self, prim), *args)
+        c.ensure('primitive-no-exception', 'raised is None')
+        sim.pump()
+        c.let('mine', tuple(sim.popped[n0:]))
+        c.ensure('commands-the-motion-then-hover', 'len(mine) == 2 and mine[1] == (0.0, 0.0, 0.0, 0.0)')
+        if len(c.get('mine')) == 2:
+            c.snapshot('mv', 'mine[0]')
+            c.ensure('streamed-velocity-is-the-requested-one', moving)
+        failed = c.choice('exception_in_body', [False, True]) if thorough else False
+        c.call((self, '__exit__'), *([c.ext('exc_type'), c.ext('exc_value'), c.ext('exc_tb')] if failed else [None, None, None]))
+        c.ensure('exit-no-exception', 'raised is None and not result')
+        sim.verdicts()
+        c.ensure('all-events-streamed', "unread == () and n_hover >= len(events)")
+        c.let('tail', tuple(p for p, _n in sim.cmd_packets))
+        c.let('after', tuple(n for _p, n in sim.cmd_packets))
+        c.ensure('stop-setpoint-then-priority-release-are-the-last-packets',
+                 "len(tail) == 2 and tail[0].port == 7 and tail[0].channel == 0 and bytes(tail[0].data) == pack('<B', 0) and "
+                 "tail[1].port == 7 and tail[1].channel == 1 and bytes(tail[1].data)[:1] == pack('<B', 0) and after == (n_hover, n_hover)")
+        c.ensure('on-ground-afterwards', 'self._is_flying is False')
+    return k
+
+
+_mc_wire(['forward', 'left', 'move_distance', 'turn_right', 'circle_left'], 0, False)
+for _p in ('forward', 'back', 'left', 'right', 'up', 'move_distance', 'turn_left', 'turn_right', 'circle_left', 'circle_right'):
+    _mc_wire([_p], 1, True)         # one contract per primitive: the thorough tier runs them in parallel
+
+
+TIMED_PRIMS = ['up', 'down', 'forward', 'start_up+wait+stop', 'start_linear_motion+wait', 'wait']
+
+
+def _mc_timed(suffix, FIRST, NS, K, thorough, SECOND=tuple(TIMED_PRIMS), exc=True):
+    PRIMS = TIMED_PRIMS
+
+    @contract('C17', 'mc.flight.timed' + suffix,
+              [MCC + '.__enter__', MCC + '.take_off', MCC + '.__exit__', MCC + '.land', MCC + '.move_distance', MCC + '._set_vel_setpoint',
+               MCC + '.up', MCC + '.down', MCC + '.forward', MCC + '.start_up', MCC + '.start_linear_motion', MCC + '.stop',
+               SPT + '.run', SPT + '._new_setpoint', SPT + '._update_z_in_setpoint', SPT + '._current_z', SPT + '.get_height', SPT + '.stop', SPT + '.set_vel_setpoint'],
+              clause=CL_HOVER + '; ' + CL_END + ' [MotionCommander with the REAL body of its set-point thread in virtual time, punctual schedule (class '
+              'CoSim): from the start of the thread to the stop command two consecutive hover set-points are never more than the update period apart; '
+              'each carries the velocities and yaw rate commanded last and the height = integral of the commanded vertical velocity over virtual '
+              'time; after a blocking vertical move of d the streamed height has changed by exactly d; every hover set-point precedes the stop command '
+              'and the priority release, and nothing is streamed after them]', float_mode='R',
+              bounded='__enter__, %s primitives: first %s%s (symbolic distances, velocities and waiting times), __exit__ %s; '
+              'at most %d periodic wake-ups of the set-point thread within one sleep of the commanding thread'
+              % (' or '.join(str(n) for n in NS), '/'.join(FIRST), ', then ' + '/'.join(SECOND) if max(NS) > 1 else '',
+                 'with or without an exception pending' if exc else 'without an exception pending', K),
+              thorough_only=thorough)
+    def k(c):
+        sim = CoSim(c, K)
+        cf = sim.crazyflie()
+        c.float('dh')
+        c.require('dh >= 0')        # 0: no climb is commanded - until the first primitive the thread streams its initial set-point
+        self = c.new(MCC, cf, c.get('dh'))
+        sim.mc = self
+        c.let('self', self)
+        c.call((self, '__enter__'))
+        c.ensure('take-off-no-exception', 'raised is None')
+        sim.pump()
+        c.snapshot('t', 'self._thread')
+        c.snapshot('H', 'dh')
+        c.ensure('height-after-take-off', 't.get_height() == H')
+        n = c.choice('n', NS)
+        for i in range(n):
+            prim = c.choice('p%d' % i, SECOND if i else FIRST)
+            a, v = c.float('a%d' % i), c.float('v%d' % i)
+            c.require('a%d > 0 and v%d > 0' % (i, i))
+            if prim in ('up', 'down', 'forward'):
+                c.call((self, prim), a, v)
+                c.snapshot('H', 'H + %d * a%d' % (DIRS[prim][2], i))
+            elif prim == 'wait':
+                sim.sleep(None, (a,), {})                   # the application just waits: the last commanded set-point keeps being streamed
+            elif prim == 'start_up+wait+stop':
+                c.call((self, 'start_up'), v)
+                sim.sleep(None, (a,), {})                   # the application waits a seconds
+                c.call((self, 'stop'))
+                c.snapshot('H', 'H + v%d * a%d' % (i, i))
+            else:
+                w = c.float('w%d' % i)
+                c.call((self, 'start_linear_motion'), v, 0.0, w)
+                sim.sleep(None, (a,), {})                   # ... and leaves the motion running (next primitive or landing replaces it)
+                c.snapshot('H', 'H + w%d * a%d' % (i, i))
+            c.ensure('step%d-no-exception' % i, 'raised is None')
+            sim.pump()
+            if prim not in ('start_linear_motion+wait', 'wait'):        # (there the next hover set-point comes with the next periodic wake-up)
+                c.ensure('step%d-streamed-height-has-changed-by-the-vertical-displacement' % i, 't.get_height() == H')
+        failed = c.choice('exception_in_body', [False, True]) if exc else False
+        c.reset_trace()
+        c.call((self, '__exit__'), *([c.ext('exc_type'), c.ext('exc_value'), c.ext('exc_tb')] if failed else [None, None, None]))
+        c.ensure('exit-no-exception', 'raised is None and not result')
+        sim.verdicts()
+        c.ensure('all-events-streamed', "unread == () and n_hover >= len(events)")
+        c.snapshot('cmd', "calls('cf.commander')")
+        c.ensure('every-hover-setpoint-precedes-stop-then-priority-release-last',
+                 "cmd[-2:] == ('cf.commander.send_stop_setpoint', 'cf.commander.send_notify_setpoint_stop') and "
+                 "all(x == 'cf.commander.send_hover_setpoint' for x in cmd[:-2])")
+        c.ensure('on-ground-afterwards', 'self._is_flying is False')
+        n0 = sim.n_hover
+        sim.sleep(None, (1.0,), {})                         # a second later: the thread is gone, nothing is streamed
+        c.let('n_later', sim.n_hover - n0)
+        c.ensure('nothing-streamed-after-the-stop-command', "n_later == 0 and calls('cf.commander')[-1:] == ('cf.commander.send_notify_setpoint_stop',)")
+    return k
+
+
+_mc_timed('', TIMED_PRIMS, [0, 1], 1, False)
+_mc_timed('.thorough.ticks3', TIMED_PRIMS, [0, 1], 3, True)
+for _p in TIMED_PRIMS:
+    if _p != 'wait':
+        _mc_timed('.thorough.' + _p.split('+')[0], [_p], [2], 2, True)      # two primitives; one contract per first primitive (run in parallel)
+
+
+@contract('C17', 'thread.run.step', [SPT + '.run', SPT + '._new_setpoint', SPT + '._update_z_in_setpoint', SPT + '._current_z', SPT + '.get_height',
+                                     SPT + '.set_vel_setpoint', SPT + '.stop'],
+          clause=CL_HOVER + ' - induction step over the iterations of run(), from ANY reachable state of the thread (reached here through two '
+          'arbitrary velocity set-points at arbitrary clock readings, after which base height, base time, vertical velocity and the last streamed '
+          'set-point are unconstrained): an idle period or a new velocity set-point produces exactly one hover set-point whose height is the last '
+          'streamed height + (vertical velocity commanded before) * (time since the last streamed set-point) [+ new vertical velocity * time '
+          'since the command was read]; the terminate event produces none and ends run().  With thread.run.events1 (first iteration) this covers '
+          'event sequences of every length.', float_mode='R')
+def thread_run_step(c):
+    kind = c.choice('kind', ['idle', 'event', 'terminate'])
+    clk = c.floats('clk', 6 + {'idle': 1, 'event': 3, 'terminate': 0}[kind])
+    c.virtual_time(clk)
+    count = {'k': 0}
+    stop_loop = c.raiser('StopLoop')
+
+    def hover(*_a):
+        count['k'] += 1
+        if count['k'] == 3:
+            stop_loop()         # the loop is observed up to and including the iteration under proof
+    cf = c.ext('cf', returns={'commander.send_hover_setpoint': hover})
+    t = c.new(SPT, cf)
+    c.let('t', t)
+    c.set(t, '_queue', c.queue('q'))        # sequential FIFO model: get(timeout=...) on an empty queue is queue.Empty (after the time-out)
+    ev = [[c.float('%s%d' % (a, i)) for a in ('vx', 'vy', 'vz', 'yaw')] for i in range(3)]
+    c.call((t, 'set_vel_setpoint'), *ev[0])
+    c.call((t, 'set_vel_setpoint'), *ev[1])
+    if kind == 'event':
+        c.call((t, 'set_vel_setpoint'), *ev[2])
+    elif kind == 'terminate':
+        c.call((t, 'stop'))
+        c.call((t, 'set_vel_setpoint'), *ev[2])         # posted after the terminate event: never streamed
+    c.reset_trace()
+    c.call((t, 'run'))
+    c.snapshot('hov', "sent('cf.commander.send_hover_setpoint')")
+    c.ensure('only-hover-setpoints-are-sent', "len(calls('cf.')) == len(hov)")
+    if kind == 'terminate':
+        c.ensure('returns-at-terminate', 'raised is None and result is None')
+        c.ensure('nothing-streamed-at-or-after-terminate', 'len(hov) == 2 and tuple(t._queue.queue) == ((vx2, vy2, vz2, yaw2),)')
+        return
+    c.ensure('keeps-running', "raised == 'StopLoop'")
+    c.ensure('exactly-one-hover-setpoint-per-iteration', 'len(hov) == 3')
+    if len(c.get('hov')) != 3:
+        return
+    c.snapshot('prev', 'hov[1][1]'), c.snapshot('new', 'hov[2][1]')
+    c.ensure('plain-call', 'len(new) == 4 and len(hov[2][2]) == 0')
+    if kind == 'idle':
+        c.ensure('repeats-velocities-and-yaw-rate', 'new[:3] == (vx1, vy1, yaw1)')
+        c.ensure('height-advances-by-vertical-velocity-times-elapsed-time', 'new[3] == prev[3] + vz1 * (clk[6] - clk[5])')
+    else:
+        c.ensure('new-velocities-and-yaw-rate', 'new[:3] == (vx2, vy2, yaw2)')
+        c.ensure('height-continues-the-integral', 'new[3] == prev[3] + vz1 * (clk[6] - clk[5]) + vz2 * (clk[8] - clk[7])')
+    c.ensure('reported-height-is-the-streamed-one', 't.get_height() == new[3]')
+
+
+def _thread_run_ticks(n, thorough):
+    @contract('C17', 'thread.run.ticks%d' % n, [SPT + '.run', SPT + '._new_setpoint', SPT + '._update_z_in_setpoint', SPT + '._current_z'],
+              clause=CL_HOVER + ' - with no new command every iteration of run() waits at most the update period and then repeats the hover '
+              'set-point with the height advanced by vertical velocity * elapsed time', float_mode='R',
+              bounded='one velocity set-point followed by %d idle periods' % n, thorough_only=thorough)
+    def k(c):
+        clk = c.floats('clk', 3 + n)
+        c.virtual_time(clk)
+        count = {'k': 0}
+        stop_loop = c.raiser('StopLoop')
+
+        def hover(*_a):
+            count['k'] += 1
+            if count['k'] == n + 1:
+                stop_loop()
+        cf = c.ext('cf', returns={'commander.send_hover_setpoint': hover})
+        c.float('period')
+        c.require('period > 0')
+        t = c.new(SPT, cf, c.get('period'))
+        c.let('t', t)
+        items = [tuple(c.float(a) for a in ('vx', 'vy', 'vz', 'yaw'))]
+        empty = c.raiser('queue.Empty')
+
+        def get(*_a):
+            if items:
+                return items.pop(0)
+            empty()
+        c.set(t, '_queue', c.ext('q', returns={'get': get}))
+        c.reset_trace()
+        c.call((t, 'run'))
+        c.let('n', n)
+        c.ensure('left-by-scripted-stop-only', "raised == 'StopLoop'")
+        c.ensure('get-then-one-hover-setpoint-each-period', "tuple(x for x in calls() if x != 'time.time') == ('q.get', 'cf.commander.send_hover_setpoint') * (n + 1)")
+        c.snapshot('hov', "sent('cf.commander.send_hover_setpoint')")
+        c.ensure('hover-setpoints', 'all(len(e[1]) == 4 and len(e[2]) == 0 and e[1][:3] == (vx, vy, yaw) for e in hov)')
+        if len(c.get('hov')) == n + 1:
+            c.ensure('heights-integrate-vertical-velocity', 'all(hov[i][1][3] == vz * (clk[2 + i] - clk[1]) for i in range(n + 1))')
+        c.ensure('waits-at-most-update-period', "all(e[2]['block'] is True and e[2]['timeout'] == period and len(e[1]) == 0 for e in sent('q.get'))")
+    return k
+
+
+_thread_run_ticks(6, True)
+_thread_run_events(3, True)
+_thread_run_events(4, True)
+
+
+# =========================================================================== histories on one object, construction
+
+@contract('C17', 'mc.second-flight', [MCC + '.__enter__', MCC + '.take_off', MCC + '.__exit__', MCC + '.land', MCC + '.start_forward', SPT + '.__init__',
+                                      SPT + '.stop', SPT + '.get_height', SPT + '.set_vel_setpoint'],
+          clause=CL_END + ' [history on ONE MotionCommander: fly, land, take off again, land again - the second flight has its own, freshly started '
+          'set-point thread whose height starts on the ground and whose queue holds nothing of the first flight, and it ends like the first: '
+          'own thread terminated and joined, stop command, priority release]', float_mode='R',
+          bounded='two flights; the first one optionally leaves a motion running when the context is left')
+def mc_second_flight(c):
+    c.virtual_time()
+    cf = c.ext('cf', returns={'is_connected': True})
+    self = c.new(MCC, cf)
+    c.let('self', self)
+    c.call((self, '__enter__'))
+    c.require('raised is None')
+    t1 = c.getfield(self, '_thread')
+    c.let('t1', t1)
+    c.float('h')
+    c.set(t1, '_hover_setpoint', [0.0, 0.0, 0.0, c.get('h')])       # the first thread has streamed up to some height
+    if c.choice('motion_left_running', [False, True]):
+        c.call((self, 'start_forward'))
+    c.call((self, '__exit__'), None, None, None)
+    c.require('raised is None')
+    c.reset_trace()
+    via = c.choice('via', ['__enter__', 'take_off'])
+    c.call((self, via))
+    c.ensure('second-take-off-no-exception', 'raised is None')
+    c.snapshot('t2', 'self._thread')
+    STARTS = "sent('thread:_SetPointThread.start')"
+    c.ensure('fresh-thread-started-once', "typename(t2) == '_SetPointThread' and not is_same(t2, t1) and len(%s) == 1 and is_same(%s[0][1][0], t2)" % (STARTS, STARTS))
+    c.ensure('estimator-reset-before-the-thread-starts', "calls()[:6] == ('cf.is_connected', 'cf.param.set_value', 'time.sleep', 'cf.param.set_value', 'time.sleep', "
+             "'thread:_SetPointThread.start')")
+    if c.get('t2') is None or c.get('t2') is t1:
+        return
+    c.ensure('second-flight-starts-on-the-ground', 't2.get_height() == 0.0')
+    c.snapshot('q2', 'tuple(t2._queue.queue)')
+    c.ensure('queue-holds-the-climb-only', "len(q2) == 2 and q2[0][:2] == (0.0, 0.0) and q2[0][3] == 0.0 and q2[0][2] > 0 and q2[1] == (0.0, 0.0, 0.0, 0.0)")
+    c.ensure('first-thread-stays-terminated', "tuple(t1._queue.queue)[-1:] == ('terminate',)")
+    c.float('h2')
+    c.set(c.get('t2'), '_hover_setpoint', [0.0, 0.0, 0.0, c.get('h2')])
+    c.reset_trace()
+    c.call((self, '__exit__'), None, None, None)
+    c.ensure('second-exit-no-exception', 'raised is None')
+    c.ensure('own-thread-terminated-and-joined-then-stop-then-priority-release',
+             "tuple(x for x in calls() if x != 'time.sleep') == ('thread:_SetPointThread.join', 'cf.commander.send_stop_setpoint', 'cf.commander.send_notify_setpoint_stop') "
+             "and all(is_same(e[1][0], t2) for e in sent('thread:_SetPointThread.join')) and tuple(t2._queue.queue)[-1:] == ('terminate',)")
+    c.ensure('on-ground-afterwards', 'self._is_flying is False')
+
+
+@contract('C17', 'phlc.second-flight', [PHC + '.take_off', PHC + '.land', PHC + '.go_to', PHC + '.forward', PHC + '.move_distance', PHC + '.get_position'],
+          clause=CL_POS + '; ' + CL_END + ' [history on ONE PositionHlCommander: take off, move, land, take off again, move, land again - the position '
+          'keeps tracking (x, y kept over the landing, z = landing height, then the new take-off height) and the second flight ends with land + stop '
+          'like the first]', float_mode='R', bounded='two flights with one primitive each (go_to, then forward); default velocity')
+def phlc_second_flight(c):
+    self = phlc(c, flying=False)
+    c.require('connected and dv > 0 and dh >= 0 and dh >= lh')
+    c.call((self, 'take_off'))
+    c.require('raised is None')
+    for n in ('gx', 'gy', 'gz', 'ht2', 'd'):
+        c.float(n)
+    c.require('gz >= lh and ht2 >= 0 and ht2 >= lh')
+    c.call((self, 'go_to'), c.get('gx'), c.get('gy'), c.get('gz'))
+    c.require('raised is None')
+    c.call((self, 'land'))
+    c.ensure('first-landing', 'raised is None and self.get_position() == (gx, gy, lh) and self._is_flying is False')
+    c.reset_trace()
+    c.call((self, 'take_off'), c.get('ht2'))
+    c.ensure('second-take-off-no-exception', 'raised is None')
+    HL = "calls('cf.high_level_commander')"
+    c.ensure('second-take-off-command', HL + " == ('cf.high_level_commander.takeoff',) and calls()[-2:] == ('cf.high_level_commander.takeoff', 'time.sleep')")
+    if called(c, 'cf.high_level_commander') == ('cf.high_level_commander.takeoff',):
+        c.snapshot('g', "sent('cf.high_level_commander.takeoff')[0][1]")
+        c.ensure('second-take-off-height-and-duration', 'len(g) == 2 and g[0] == ht2 and g[1] * dv == ht2 and g[1] >= 0')
+    c.ensure('position-after-second-take-off', 'self.get_position() == (gx, gy, ht2) and self._is_flying is True')
+    c.reset_trace()
+    c.call((self, 'forward'), c.get('d'))
+    c.ensure('move-no-exception', 'raised is None')
+    c.ensure('position-is-start-plus-sum-of-displacements', 'self.get_position() == (gx + d, gy, ht2)')
+    c.ensure('go-to-targets-reported-position', "implies(d != 0, len(sent('%s')) == 1) and all(e[1][:4] == (gx + d, gy, ht2, 0) for e in sent('%s'))" % (GOTO, GOTO))
+    c.reset_trace()
+    c.call((self, 'land'))
+    c.ensure('second-landing-no-exception', 'raised is None')
+    c.ensure('ends-with-land-sleep-stop', "calls() == ('cf.high_level_commander.land', 'time.sleep', 'cf.high_level_commander.stop')")
+    if called(c)[:1] == ('cf.high_level_commander.land',):
+        c.ensure('landing-from-tracked-height', 'trace[0][1][0] == lh and trace[0][1][1] * dv == ht2 - lh')
+    c.ensure('final-position', 'self.get_position() == (gx + d, gy, lh) and self._is_flying is False')
+
+
+@contract('C17', 'construct.from-sync', [MCC + '.__init__', PHC + '.__init__', MCC + '.take_off', MCC + '.land', PHC + '.take_off', PHC + '.land'],
+          clause=CL_END + ' [the commanders constructed from a SyncCrazyflie (the way every example uses them) command the wrapped Crazyflie: '
+          'the take-off and the final stop command go to it]', float_mode='R', bounded='one take-off and landing with default arguments')
+def construct_from_sync(c):
+    c.virtual_time([0.0, 5.0])
+    cf = c.ext('cf', returns={'is_connected': True})
+    scf = c.new(SCF, 'radio://0/80/2M', cf)
+    which = c.choice('which', ['MotionCommander', 'PositionHlCommander'])
+    self = c.call(MCC if which == 'MotionCommander' else PHC, scf)
+    c.ensure('constructed', 'raised is None')
+    if c.get('raised') is not None:
+        return
+    c.let('self', self)
+    c.reset_trace()
+    c.call((self, '__enter__'))
+    c.ensure('take-off-no-exception', 'raised is None and is_same(result, self)')
+    if which == 'PositionHlCommander':
+        c.ensure('take-off-command-to-the-wrapped-crazyflie', "calls('cf.') == ('cf.is_connected', 'cf.high_level_commander.takeoff')")
+    else:
+        c.ensure('set-point-thread-for-the-wrapped-crazyflie', "calls('cf.')[:1] == ('cf.is_connected',) and is_same(self._thread._cf, cf)")
+    c.reset_trace()
+    c.call((self, '__exit__'), None, None, None)
+    c.ensure('exit-no-exception', 'raised is None')
+    if which == 'PositionHlCommander':
+        c.ensure('ends-with-land-then-stop', "calls('cf.') == ('cf.high_level_commander.land', 'cf.high_level_commander.stop')")
+    else:
+        c.ensure('ends-with-stop-then-priority-release', "calls('cf.') == ('cf.commander.send_stop_setpoint', 'cf.commander.send_notify_setpoint_stop')")
+
+
+@contract('C17', 'phlc.defaults.take_off', [PHC + '.set_default_velocity', PHC + '.set_default_height', PHC + '.take_off', PHC + '.__enter__', PHC + '._height', PHC + '._velocity'],
+          clause=CL_POS + ' - default changes made before the flight: take-off climbs to the NEW default height with duration height / NEW default '
+          'velocity, and the reported position becomes (x, y, new default height)', float_mode='R')
+def phlc_defaults_take_off(c):
+    self = phlc(c, flying=False, clock=[0.0, 5.0])
+    c.float('ndv'), c.float('ndh')
+    c.require('connected and ndv > 0 and ndh >= 0')
+    c.call((self, 'set_default_velocity'), c.get('ndv'))
+    c.call((self, 'set_default_height'), c.get('ndh'))
+    c.ensure('setters-send-nothing', "raised is None and calls() == () and self.get_position() == (x0, y0, z0) and self._is_flying is False")
+    c.call((self, c.choice('via', ['take_off', '__enter__'])))
+    c.ensure('no-exception', 'raised is None')
+    c.snapshot('g', "sent('cf.high_level_commander.takeoff')")
+    c.ensure('take-off-to-the-new-default-height-with-the-new-default-velocity',
+             "len(g) == 1 and len(g[0][1]) == 2 and g[0][1][0] == ndh and g[0][1][1] * ndv == ndh and sent('time.sleep')[-1][1] == (g[0][1][1],)")
+    c.ensure('position-and-state', 'self.get_position() == (x0, y0, ndh) and self._is_flying is True')
+
+
+# =========================================================================== thorough tier: longer programs
+
+MC_PROG = ['forward', 'start_up', 'turn_left', 'stop', 'circle_right', 'down', 'start_circle_left', 'start_turn_right']
+
+
+def _mc_session_thorough(first):
+    @contract('C17', 'mc.session.thorough.' + first, [MCC + '.__enter__', MCC + '.take_off', MCC + '.__exit__', MCC + '.land', SPT + '.stop', SPT + '.set_vel_setpoint',
+                                                      SPT + '.get_height'] + [MCC + '.' + p for p in MC_PROG],
+              clause=CL_END + ' [MotionCommander with its real set-point thread object: __enter__, a bounded program, __exit__]', float_mode='R',
+              bounded='programs of exactly 3 primitives, the first one %s, the others drawn from %s (symbolic arguments), ending at the first exception'
+              % (first, '/'.join(MC_PROG)), thorough_only=True)
+    def k(c):
+        c.virtual_time()
+        cf = c.ext('cf', returns={'is_connected': True})
+        self = c.new(MCC, cf)
+        c.let('self', self)
+        c.call((self, '__enter__'))
+        c.require('raised is None')
+        t = c.getfield(self, '_thread')
+        c.let('t', t)
+        c.float('h')
+        c.set(t, '_hover_setpoint', [0.0, 0.0, 0.0, c.get('h')])
+        failed = False
+        for i in range(3):
+            p = c.choice('p%d' % i, MC_PROG) if i else first
+            a = [c.float('a%d' % i)] if p != 'stop' else []
+            c.call((self, p), *a)
+            c.ensure('step%d-still-flying-with-the-same-thread' % i, 'self._is_flying is True and is_same(self._thread, t)')
+            if c.get('raised') is not None:
+                failed = True
+                break
+        c.snapshot('n0', 'len(tuple(t._queue.queue))')
+        c.reset_trace()
+        c.call((self, '__exit__'), *([c.ext('exc_type'), c.ext('exc_value'), c.ext('exc_tb')] if failed else [None, None, None]))
+        c.ensure('no-exception', 'raised is None and not result')
+        c.ensure('thread-terminated-and-joined-then-stop-then-priority-release',
+                 "tuple(x for x in calls() if x != 'time.sleep') == ('thread:_SetPointThread.join', 'cf.commander.send_stop_setpoint', 'cf.commander.send_notify_setpoint_stop')")
+        c.ensure('joined-own-thread', "all(is_same(e[1][0], t) for e in sent('thread:_SetPointThread.join'))")
+        c.ensure('terminate-is-the-last-event', "tuple(t._queue.queue)[-1:] == ('terminate',) and all(e != 'terminate' for e in tuple(t._queue.queue)[:-1])")
+        c.ensure('descent-queued-iff-height-nonzero', 'len(tuple(t._queue.queue)) == n0 + (3 if h != 0 else 1)')
+        c.ensure('on-ground-afterwards', 'self._is_flying is False and self._thread is None')
+    return k
+
+
+for _p in MC_PROG:
+    _mc_session_thorough(_p)
+
+
+PHLC_PROG = dict(DIRS)
+
+
+def _phlc_session_thorough(first):
+    ALL = ['forward', 'left', 'down', 'go_to', 'move_distance']
+
+    @contract('C17', 'phlc.session.thorough.' + first, [PHC + '.__enter__', PHC + '.take_off', PHC + '.__exit__', PHC + '.land', PHC + '.go_to', PHC + '.move_distance',
+                                                        PHC + '.get_position'] + [PHC + '.' + p for p in PHLC_PROG],
+              clause=CL_POS + '; ' + CL_END + ' [PositionHlCommander: __enter__, a bounded program, __exit__ without or with an exception pending]', float_mode='R',
+              bounded='programs of exactly 3 primitives, the first one %s, the others drawn from %s (symbolic arguments) with the default velocity'
+              % (first, '/'.join(ALL)), thorough_only=True)
+    def k(c):
+        self = phlc(c, flying=False)
+        c.require('connected and dv > 0 and dh >= 0')
+        c.call((self, '__enter__'))
+        c.require('raised is None')
+        c.snapshot('px', 'x0'), c.snapshot('py', 'y0'), c.snapshot('pz', 'dh')
+        for i in range(3):
+            p = c.choice('p%d' % i, ALL) if i else first
+            if p == 'go_to':
+                a = [c.float('gx%d' % i), c.float('gy%d' % i), c.float('gz%d' % i)]
+                c.snapshot('px', 'gx%d' % i), c.snapshot('py', 'gy%d' % i), c.snapshot('pz', 'gz%d' % i)
+            elif p == 'move_distance':
+                a = [c.float('gx%d' % i), c.float('gy%d' % i), c.float('gz%d' % i)]
+                c.snapshot('px', 'px + gx%d' % i), c.snapshot('py', 'py + gy%d' % i), c.snapshot('pz', 'pz + gz%d' % i)
+            else:
+                a = [c.float('a%d' % i)]
+                c.let('s', PHLC_PROG[p])
+                c.snapshot('px', 'px + s[0] * a%d' % i), c.snapshot('py', 'py + s[1] * a%d' % i), c.snapshot('pz', 'pz + s[2] * a%d' % i)
+            c.reset_trace()
+            c.call((self, p), *a)
+            c.ensure('step%d-no-exception' % i, 'raised is None')
+            c.ensure('step%d-position-is-start-plus-sum-of-displacements' % i, 'self.get_position() == (px, py, pz) and self._is_flying is True')
+            c.ensure('step%d-every-go-to-targets-the-reported-position' % i, "len(sent('%s')) <= 1 and all(e[1][:4] == (px, py, pz, 0) for e in sent('%s'))" % (GOTO, GOTO))
+        c.require('pz >= lh')
+        failed = c.choice('exception_in_body', [False, True])
+        c.reset_trace()
+        c.call((self, '__exit__'), *([c.ext('exc_type'), c.ext('exc_value'), c.ext('exc_tb')] if failed else [None, None, None]))
+        c.ensure('no-exception', 'raised is None and not result')
+        c.ensure('ends-with-land-sleep-stop', "calls() == ('cf.high_level_commander.land', 'time.sleep', 'cf.high_level_commander.stop')")
+        if called(c)[:2] == ('cf.high_level_commander.land', 'time.sleep'):
+            c.ensure('landing-from-tracked-height', 'len(trace[0][1]) == 2 and trace[0][1][0] == lh and trace[0][1][1] * dv == pz - lh and trace[1][1] == (trace[0][1][1],)')
+        c.ensure('final-position', 'self.get_position() == (px, py, lh) and self._is_flying is False')
+    return k
+
+
+for _p in sorted(PHLC_PROG) + ['go_to', 'move_distance']:
+    _phlc_session_thorough(_p)
+
+
+GRID = [('forward', (0.15, 0.5), (0.5, 0.0, 0.0, 0.0)), ('back', (0.15, 0.5), (-0.5, 0.0, 0.0, 0.0)), ('left', (0.15, 0.5), (0.0, 0.5, 0.0, 0.0)),
+        ('right', (0.15, 0.5), (0.0, -0.5, 0.0, 0.0)), ('move_distance', (0.12, 0.09, 0.0, 0.5), (0.4, 0.3, 0.0, 0.0)),
+        ('move_distance', (-0.3, 0.4, 0.0, 0.25), (-0.15, 0.2, 0.0, 0.0)), ('turn_left', (90.0, 45.0), (0.0, 0.0, 0.0, 45.0)),
+        ('circle_right', (0.5, 0.25, 90.0), (0.25, 0.0, 0.0, None))]
+
+
+@contract('C17', 'mc.on-the-wire.grid', [MCC + '.__enter__', MCC + '.__exit__', MCC + '.move_distance', MCC + '._set_vel_setpoint', SPT + '.run', SPT + '._new_setpoint',
+                                         CMDR + '.send_hover_setpoint', CMDR + '.send_stop_setpoint', CMDR + '.send_notify_setpoint_stop', CMDR + '.set_client_xmode']
+          + sorted(set(MCC + '.' + g[0] for g in GRID)),
+          clause=CL_MOVE + ' [the same end-to-end statement as mc.on-the-wire in MACHINE arithmetic (no real-number abstraction, struct.pack exact) on a '
+          'grid of concrete flights: while the primitive runs, every hover packet on the link carries exactly the requested velocity vector '
+          '(float32 of it) whatever the client X-mode, the flight ends with the stop packet and the priority release]',
+          bounded='concrete grid: %d primitives with fixed arguments x protocol version 8 / 9 x client X-mode off / on; default take-off height; '
+          'punctual schedule' % len(GRID))
+def mc_on_the_wire_grid(c):
+    sim = CoSim(c, 10 ** 6, wire=True, concrete=True)
+    cf = sim.crazyflie()
+    self = c.new(MCC, cf)
+    sim.mc = self
+    c.let('self', self)
+    c.call((self, '__enter__'))
+    c.ensure('take-off-no-exception', 'raised is None')
+    sim.pump()
+    name, args, want = c.choice('flight', GRID)
+    h0, e0 = sim.n_hover, len(sim.popped)
+    c.reset_trace()
+    c.call((self, name), *args)
+    c.ensure('primitive-no-exception', 'raised is None')
+    c.let('want', want)
+    c.let('moving', tuple(sim.popped[e0:e0 + 1]))
+    c.let('n_during', sim.n_hover - h0)
+    c.ensure('hover-packets-are-streamed-during-the-motion', 'n_during >= 1 and len(moving) == 1')
+    c.snapshot('pks', "tuple(e[1][0] for e in sent('cf.send_packet'))")
+    c.let('kind', 5 if sim.legacy else 10)
+    c.let('ysign', -1.0 if sim.legacy else 1.0)
+    c.snapshot('us', "tuple(unpack('<Bffff', bytes(p.data)) for p in pks)")
+    c.ensure('every-hover-packet-of-the-motion-carries-the-requested-velocity-vector',
+             "len(pks) == n_during and all(p.port == 7 and p.channel == 0 for p in pks) and "
+             "all(u[:3] == (kind, f32(want[0]), f32(want[1])) and (want[3] is None or u[3] == ysign * f32(want[3])) for u in us)")
+    sim.pump()
+    c.call((self, '__exit__'), None, None, None)
+    c.ensure('exit-no-exception', 'raised is None')
+    sim.verdicts()
+    c.let('tail', tuple(p for p, _n in sim.cmd_packets))
+    c.let('after', tuple(n for _p, n in sim.cmd_packets))
+    c.ensure('stop-setpoint-then-priority-release-are-the-last-packets',
+             "len(tail) == 2 and tail[0].port == 7 and tail[0].channel == 0 and bytes(tail[0].data) == pack('<B', 0) and "
+             "tail[1].port == 7 and tail[1].channel == 1 and bytes(tail[1].data)[:1] == pack('<B', 0) and after == (n_hover, n_hover)")
+
+
+@contract('C17', 'thread.run.initial', [SPT + '.__init__', SPT + '.run', SPT + '._update_z_in_setpoint', SPT + '._current_z', SPT + '.get_height'],
+          clause=CL_HOVER + ' - base case: before the first velocity set-point arrives the thread streams zero velocities, zero yaw rate and height 0 '
+          '(nothing that was not commanded), once per update period', float_mode='R', bounded='two idle periods on a fresh thread')
+def thread_run_initial(c):
+    clk = c.floats('clk', 2)
+    c.virtual_time(clk)
+    count = {'k': 0}
+    stop_loop = c.raiser('StopLoop')
+
+    def hover(*_a):
+        count['k'] += 1
+        if count['k'] == 2:
+            stop_loop()
+    cf = c.ext('cf', returns={'commander.send_hover_setpoint': hover})
+    t = c.new(SPT, cf)
+    c.let('t', t)
+    c.set(t, '_queue', c.queue('q'))
+    c.reset_trace()
+    c.call((t, 'run'))
+    c.ensure('keeps-running', "raised == 'StopLoop'")
+    c.snapshot('hov', "sent('cf.commander.send_hover_setpoint')")
+    c.ensure('streams-the-zero-setpoint', 'len(hov) == 2 and all(e[1] == (0.0, 0.0, 0.0, 0.0) and len(e[2]) == 0 for e in hov)')
+    c.ensure('height-on-the-ground', 't.get_height() == 0.0')
